@@ -86,6 +86,8 @@ def gen_case(streams, tier):
         labels.append('synthopt')
     if cfg['aw'] <= 6 and g.random() < 0.4:
         labels.append('verilog')
+    if g.random() < 0.3:
+        labels.append('optcopy')      # optimize(update_working_block=False): the pass on a copy
     if cfg['aw'] > 8 and 'compiled' not in labels and g.random() < 0.5:
         labels.append('compiled')
     if g.random() < 0.25:
@@ -118,6 +120,7 @@ def gen_case(streams, tier):
                 else:
                     clean.append(cyc)
             tape = clean or tape[:0]
+    cfg['const_off_port'] = (not covering) and f.random() < 0.3
     if not covering and tape and f.random() < 0.3:
         # one more read port whose address is a constant (a Python int in the user's code)
         cfg['const_read'] = f.choice([c['wa0'] for c in tape if 'wa0' in c] or [0]) if cfg['W'] else _addr(f, cfg)
@@ -275,6 +278,10 @@ def build(cfg):
             if mem2 is not None:
                 o2 = pyrtl.Output(cfg['bw'], 'sd%d' % r)
                 o2 <<= mem2[ra]
+        if cfg.get('const_off_port') and cfg['W'] and not cfg['rom'] and cfg.get('variant', 'plain') == 'plain':
+            # one more write port, switched off for good by a constant-0 enable
+            mem[blk.wirevector_by_name['wa0']] <<= pyrtl.MemBlock.EnabledWrite(
+                ~blk.wirevector_by_name['wd0'], enable=pyrtl.Const(0, bitwidth=1))
         if cfg.get('const_read') is not None:
             ko = pyrtl.Output(cfg['bw'], 'kd0')
             ko <<= mem[pyrtl.Const(cfg['const_read'], bitwidth=cfg['aw'])]
@@ -408,6 +415,16 @@ def run(case, res):
                 r = replica.Replica(lab, replica.make_sim('sim', live, init, tracer=None))
                 r.mem = None if cfg['rom'] else live.mems['m']
                 r.keymem = live.sim_mems.get('m')
+            elif lab == 'optcopy':
+                with transforms.quiet():
+                    oc = pyrtl.optimize(update_working_block=False, block=blk)
+                live = replica.Live.from_block(oc)
+                if not cfg['rom']:
+                    key = [k for k, m_ in sorted(live.mems.items()) if m_.name == 'mem'][0]
+                    live.mems = {'m': live.mems[key]}
+                    live.sim_mems = {'m': live.sim_mems[key]}
+                r = replica.Replica(lab, replica.make_sim('sim', live, init, tracer=None))
+                r.mem = None if cfg['rom'] else live.mems['m']
             elif lab == 'verilog':
                 r = VReplica(blk, cfg, mem.id)
             else:
@@ -442,7 +459,7 @@ def run(case, res):
 
     def before(r, pos):
         for f in pokes.get(pos, []):
-            if r.label.split('#')[0] in ('sim', 'fast', 'synthopt'):
+            if r.label.split('#')[0] in ('sim', 'fast', 'synthopt', 'optcopy'):
                 d = r.sim.inspect_mem(r.mem)
                 d[f['addr']] = f['value']
                 res.faults.hit('storage_poke')
